@@ -449,21 +449,26 @@ pub struct WireCase {
     pub chunked: Option<Option<Cl>>,
 }
 
-pub fn wire_oracle(c: &WireCase) -> CaseResult {
-    use std::io::{Read, Write};
-    let addr = server_addr();
+struct WirePlan {
+    reqhead: String,
+    chunks: Vec<Vec<u8>>,
+    readings: Vec<u64>,
+    body: Vec<u8>,
+}
+
+/// `salt` selects the byte pattern of the body (two requests in flight at once carry different bytes).
+fn wire_plan(c: &WireCase, salt: u8) -> WirePlan {
     let total = c.total as usize;
-    let body: Vec<u8> = (0..total).map(|i| byte_at(i, 0, total)).collect();
+    let body: Vec<u8> = (0..total).map(|i| if salt == 0 { byte_at(i, 0, total) } else { (i.wrapping_mul(17).wrapping_add(salt as usize * 29) % 241) as u8 }).collect();
     let n = c.limit as u64;
-    let mut info = CaseInfo::default();
     let mut cuts: Vec<usize> = c.cuts.iter().map(|r| idx(*r, total + 1)).collect();
     cuts.sort();
     cuts.dedup();
-    let mut chunks: Vec<&[u8]> = vec![];
+    let mut chunks: Vec<Vec<u8>> = vec![];
     let mut prev = 0;
     for cut in cuts.into_iter().chain(std::iter::once(total)) {
         if cut > prev {
-            chunks.push(&body[prev..cut]);
+            chunks.push(body[prev..cut].to_vec());
             prev = cut;
         }
     }
@@ -500,25 +505,34 @@ pub fn wire_oracle(c: &WireCase) -> CaseResult {
         }
     }
     reqhead.push_str("\r\n");
+    WirePlan { reqhead, chunks, readings, body }
+}
+
+fn write_chunk(s: &mut std::net::TcpStream, chunked: bool, ch: &[u8]) -> std::io::Result<()> {
+    use std::io::Write;
+    if chunked {
+        s.write_all(format!("{:x}\r\n", ch.len()).as_bytes()).and_then(|_| s.write_all(ch)).and_then(|_| s.write_all(b"\r\n"))?;
+    } else {
+        s.write_all(ch)?;
+    }
+    s.flush()
+}
+
+pub fn wire_oracle(c: &WireCase) -> CaseResult {
+    use std::io::{Read, Write};
+    let addr = server_addr();
+    let plan = wire_plan(c, 0);
     let io = |e: std::io::Error| Fail::new("loopback:io", format!("{e}"));
     let mut s = std::net::TcpStream::connect(addr).map_err(io)?;
     s.set_read_timeout(Some(std::time::Duration::from_secs(20))).ok();
     s.set_nodelay(true).ok();
-    s.write_all(reqhead.as_bytes()).map_err(io)?;
+    s.write_all(plan.reqhead.as_bytes()).map_err(io)?;
     let mut write_failed = false;
-    for ch in &chunks {
-        let r = if c.chunked.is_some() {
-            s.write_all(format!("{:x}\r\n", ch.len()).as_bytes())
-                .and_then(|_| s.write_all(ch))
-                .and_then(|_| s.write_all(b"\r\n"))
-        } else {
-            s.write_all(ch)
-        };
-        if r.is_err() {
+    for ch in &plan.chunks {
+        if write_chunk(&mut s, c.chunked.is_some(), ch).is_err() {
             write_failed = true; // the server may legitimately stop reading once it has answered
             break;
         }
-        let _ = s.flush();
         std::thread::yield_now();
     }
     if c.chunked.is_some() && !write_failed {
@@ -526,7 +540,13 @@ pub fn wire_oracle(c: &WireCase) -> CaseResult {
     }
     let mut resp = Vec::new();
     let _ = s.read_to_end(&mut resp);
-    let resp = String::from_utf8_lossy(&resp).to_string();
+    wire_judge(c, &plan, String::from_utf8_lossy(&resp).to_string())
+}
+
+fn wire_judge(c: &WireCase, plan: &WirePlan, resp: String) -> CaseResult {
+    let (reqhead, chunks, readings, body) = (&plan.reqhead, &plan.chunks, &plan.readings, &plan.body);
+    let n = c.limit as u64;
+    let mut info = CaseInfo::default();
     let Some((status_line, rest)) = resp.split_once("\r\n") else {
         // hyper itself rejected the message (e.g. conflicting framing headers): nothing reached the application
         info.lab("loopback:no-response(transport-rejected)");
@@ -586,6 +606,82 @@ pub fn wire_oracle(c: &WireCase) -> CaseResult {
     let (t, n_chunks) = (c.total as u64, chunks.len());
     if t == n || t == n + 1 || (n_chunks >= 3 && t > n) || matches!(c.chunked, Some(Some(_))) {
         info.set_nontrivial(true);
+    }
+    Ok(info)
+}
+
+
+/// Two requests in flight at once on a server with ONE worker, their chunks written alternately: the
+/// buffered body of each is judged on its own (per-request limit, its own bytes).
+#[derive(Clone, Debug, Serialize, Deserialize)]
+pub struct PairCase {
+    pub a: WireCase,
+    pub b: WireCase,
+}
+
+fn single_worker_addr() -> std::net::SocketAddr {
+    static ADDR: std::sync::OnceLock<std::net::SocketAddr> = std::sync::OnceLock::new();
+    *ADDR.get_or_init(|| {
+        let rt: &'static tokio::runtime::Runtime = Box::leak(Box::new(
+            tokio::runtime::Builder::new_multi_thread().worker_threads(1).enable_all().build().unwrap(),
+        ));
+        rt.block_on(async {
+            let incoming = pavex::server::IncomingStream::bind("127.0.0.1:0".parse().unwrap()).await.unwrap();
+            let addr = incoming.local_addr().unwrap();
+            let handle = pavex::server::Server::new()
+                .set_config(pavex::server::ServerConfiguration::new().set_n_workers(1))
+                .listen(incoming)
+                .serve(loop_handler, ());
+            std::mem::forget(handle);
+            addr
+        })
+    })
+}
+
+pub fn pair_oracle(p: &PairCase) -> CaseResult {
+    use std::io::{Read, Write};
+    let addr = single_worker_addr();
+    let plans = [wire_plan(&p.a, 1), wire_plan(&p.b, 2)];
+    let cases = [&p.a, &p.b];
+    let io = |e: std::io::Error| Fail::new("loopback:io", format!("{e}"));
+    let mut socks = vec![];
+    for plan in &plans {
+        let mut s = std::net::TcpStream::connect(addr).map_err(io)?;
+        s.set_read_timeout(Some(std::time::Duration::from_secs(20))).ok();
+        s.set_nodelay(true).ok();
+        s.write_all(plan.reqhead.as_bytes()).map_err(io)?;
+        socks.push(s);
+    }
+    // alternate the chunks of the two bodies; a short pause lets the worker poll both extractions in between
+    let mut failed = [false, false];
+    let rounds = plans[0].chunks.len().max(plans[1].chunks.len());
+    for r in 0..rounds {
+        for k in 0..2 {
+            if let Some(ch) = plans[k].chunks.get(r) {
+                if !failed[k] && write_chunk(&mut socks[k], cases[k].chunked.is_some(), ch).is_err() {
+                    failed[k] = true;
+                }
+            }
+        }
+        std::thread::sleep(std::time::Duration::from_millis(2));
+    }
+    for k in 0..2 {
+        if cases[k].chunked.is_some() && !failed[k] {
+            let _ = socks[k].write_all(b"0\r\n\r\n");
+        }
+    }
+    let mut info = CaseInfo::default();
+    for k in 0..2 {
+        let mut resp = Vec::new();
+        let _ = socks[k].read_to_end(&mut resp);
+        let i = wire_judge(cases[k], &plans[k], String::from_utf8_lossy(&resp).to_string()).map_err(|f| Fail::new(format!("interleaved:{}", f.signature), format!("request {} of two interleaved requests on one worker: {}", ["A", "B"][k], f.message)))?;
+        for l in i.labels {
+            info.lab(l);
+        }
+    }
+    if plans[0].chunks.len() >= 2 && plans[1].chunks.len() >= 2 {
+        info.set_nontrivial(true);
+        info.lab("interleaved:both-multi-chunk");
     }
     Ok(info)
 }
@@ -657,12 +753,22 @@ pub fn wire_strategy() -> impl Strategy<Value = WireCase> {
         .prop_map(|((limit, total), cuts, chunked)| WireCase { limit, total, cuts, chunked })
 }
 
+/// A chunked request with 2-6 chunks and a small limit (bodies around and above it).
+fn wire_pair_member() -> impl Strategy<Value = WireCase> {
+    (prop::sample::select(vec![8u32, 16, 64, 300]), 0u32..3, prop::collection::vec(any::<u16>(), 1..6)).prop_map(|(limit, k, cuts)| WireCase {
+        limit,
+        total: [limit.saturating_sub(3), limit, limit + limit / 2 + 1][k as usize],
+        cuts,
+        chunked: Some(None),
+    })
+}
+
 pub fn main(mut chk: Check) -> ! {
     chk.ev.rule = "in-process (hook H1): limit N from {0,1,2,7,64,1000,8192} or random, body length around {0,N-1,N,N+1,N+2,2N,3N+5} or random, split into 1-12 data frames plus empty frames/trailers/an injected stream error, Content-Length in {absent, truthful, smaller, larger<=N, larger>N, 2^64, 10 kinds of garbage}, optionally followed by JsonBody/UrlEncodedBody extraction. loopback: the real BufferedBody::extract behind pavex::server::Server; raw TCP client with Content-Length framing or chunked framing (chosen chunk sizes), optionally with an extra (lying) Content-Length header before Transfer-Encoding. Oracle: Ok(b) => len(b)<=N and b == bytes sent; size-limit error => sent>N or a plausible reading of the header >N; within-limit bodies with harmless headers must be accepted; no other error unless the stream failed. non-trivial = length in {N, N+1}, or >=3 frames of an over-limit body, or a Content-Length that is not absent/truthful; distinct = distinct serialised case".into();
     chk.ev.assume("for malformed Content-Length values every numeric reading a lenient parser could make is considered 'declared' (rejecting on it is allowed, never required)");
     chk.ev.assume("loopback: when hyper itself rejects a request (conflicting framing headers) nothing reaches the extractor and the case is only classified");
     if let Some(p) = chk.settings.replay.clone() {
-        let ok = chk.replay_one::<Case, _>("in-process", &p, oracle) || chk.replay_one::<WireCase, _>("loopback", &p, wire_oracle);
+        let ok = chk.replay_one::<Case, _>("in-process", &p, oracle) || chk.replay_one::<WireCase, _>("loopback", &p, wire_oracle) || chk.replay_one::<PairCase, _>("loopback-interleaved", &p, pair_oracle);
         if !ok {
             eprintln!("replay file {} does not belong to C14", p.display());
             std::process::exit(2);
@@ -675,6 +781,10 @@ pub fn main(mut chk: Check) -> ! {
     let t = chk.tier();
     chk.run("in-process", t.pick(300_000, 2_000_000), case_strategy(), oracle);
     chk.run("loopback", t.pick(4_000, 30_000), wire_strategy(), wire_oracle);
+    // two requests in flight at once on one worker, chunks written alternately (each judged on its own)
+    chk.ev.rule.push_str(" || campaign loopback-interleaved: pairs of chunked requests (2-6 chunks each, own limit, different byte patterns) to a server with one worker, chunks written alternately with 2 ms pauses; each response judged as in the loopback campaign");
+    let pair = (wire_pair_member(), wire_pair_member()).prop_map(|(a, b)| PairCase { a, b });
+    chk.run("loopback-interleaved", t.pick(700, 8_000), pair, pair_oracle);
     chk.finish()
 }
 
